@@ -792,6 +792,39 @@ def classify_optimum(info, tres, bres, to_t, to_b, shift, ctol):
     return None
 
 
+def asym_inner_minimisation_stopped_short(tb, names_t, ae, bad_rows, info):
+    """explain-check for the open finding KEY_SCIPY_MIN in the asymmetric-error search: transformation = scaling AND backend = scipy AND
+    for a failing parameter the cost, properly re-minimised (do_fit repeated on the same object until it no longer improves) with that
+    parameter pinned at optimum + reported upper error, has risen by clearly less than 1: the search cut the profile where the scipy
+    re-minimisation of the other parameters had stopped short (profile too high), not where the true profile reaches 1."""
+    if info["kind"] != "scaling" or info["minimizer"] != "scipy" or not bad_rows:
+        return None
+    try:
+        fit = tb.fit
+        p0 = np.array(fit.parameter_values, dtype=float)
+        c0 = float(fit.cost_function_value)
+        i = bad_rows[0]
+        fit.fix_parameter(names_t[i], float(p0[i] + ae[i][1]))
+        best = np.inf
+        for _ in range(6):
+            fit.do_fit()
+            c = float(fit.cost_function_value)
+            if c > best - 1e-9:
+                break
+            best = c
+        rise = min(best, float(fit.cost_function_value)) - c0
+        fit.release_parameter(names_t[i])
+        fit.set_all_parameter_values(list(p0))
+        if np.isfinite(rise) and rise < 0.9:
+            return KEY_SCIPY_MIN
+    except Exception:
+        pass
+    # open finding: the generic (scipy) asymmetric-error search returns different multiples of sigma in different units although the
+    # symmetric uncertainties of the two fits agree (this point is only reached when they did): signature = scaling AND scipy AND the
+    # failing rows are free parameters with agreeing symmetric errors
+    return "C15/scipy-asymmetric-errors-change-with-the-unit"
+
+
 def classify_asym(info):
     """scipy's generic profile root finding stops at |dx| < tolerance = 1e-6 in *absolute* parameter units.
     KEY_SCIPY_XTOL: transformation = scaling AND backend = scipy AND every failing entry belongs to a parameter whose sigma is
@@ -886,6 +919,11 @@ def compare_triple(ctx, case, vi, base, bres, sig_b, guards):
         ctx.violation(None, "transformed.read.no-exception", dict(tag, traceback=fmt_exc()))
         return
 
+    if not np.isfinite(tres["cost"]) or not np.isfinite(bres["cost"]) or min(tres["cost"], bres["cost"]) < -1e9:
+        # one of the two minimisations ran away into a region where the cost is unbounded below (log-determinant of a collapsing
+        # parameter-dependent covariance): an ill-posed problem has no optimum the relabelled fit could be compared with
+        ctx.discard("cost-unbounded-below-minimisation-ran-away")
+        return
     ptol, ctol = (1e-2, 1e-3) if mini == "iminuit" else (5e-2, 5e-3)
     # Minuit2's HESSE with strategy 1 (kafe2's setting) iterates its step sizes only until the second derivatives change by less
     # than 5 % (MnStrategy: HessianG2Tolerance = 0.05, at most 3 cycles): exact for a parabolic cost, +-2.5 % in sigma otherwise
@@ -1060,7 +1098,7 @@ def compare_triple(ctx, case, vi, base, bres, sig_b, guards):
             "asymmetric_parameter_errors",
             not bad_rows,
             lambda: dict(tag, names=names_t, got=ae, expected=exp_a, deviation_in_sigma=da, tolerance_sigma=atol, sigma_transformed=e_safe),
-            key=lambda: classify_asym(dict(info, bad_rows=bad_rows)),
+            key=lambda: classify_asym(dict(info, bad_rows=bad_rows)) or asym_inner_minimisation_stopped_short(tb, names_t, ae, bad_rows, info),
         )
         if oka:
             worst("dasym_sigma", float(da.max()))
